@@ -545,3 +545,103 @@ Proof.
   unfold reply_with_value. intros H.
   destruct (reply_fields p command _ e q H) as (H1 & H2 & H3 & H4 & H5 & H6 & _ & H8). auto 10.
 Qed.
+
+(* ---- every 8-bit flag value: marks found on the sender's packet are dropped by the encoder ------- *)
+Definition unmarked (p : packet) : packet := with_flag p (unmark (flg p)).
+
+Lemma marshal_unmarked c thr enc p : marshal_body c thr enc (unmarked p) = marshal_body c thr enc p.
+Proof. unfold marshal_body, unmarked. cbn [with_flag flg pbody]. rewrite unmark_idem. reflexivity. Qed.
+
+Lemma wire_v1_unmarked c thr enc dec p : wire_v1 c thr enc dec (unmarked p) = wire_v1 c thr enc dec p.
+Proof. unfold wire_v1. rewrite marshal_unmarked. reflexivity. Qed.
+Lemma wire_v2_unmarked c thr enc dec p : wire_v2 c thr enc dec (unmarked p) = wire_v2 c thr enc dec p.
+Proof. unfold wire_v2. rewrite marshal_unmarked. reflexivity. Qed.
+
+Lemma unmarked_clean p : 0 <= flg p < 256 -> clean (flg (unmarked p)).
+Proof. intros H. cbn. apply unmark_clean. assumption. Qed.
+
+Lemma wire_v1_result_any c thr enc p q : coders_ok c -> 0 <= flg p < 256 ->
+  wire_v1 c thr enc enc p = Some q -> q = v1_result (unmarked p).
+Proof.
+  intros Hc Hf H. rewrite <- wire_v1_unmarked in H.
+  exact (wire_v1_result c thr enc _ q Hc (unmarked_clean p Hf) H).
+Qed.
+Lemma wire_v2_result_any c thr enc p q : coders_ok c -> 0 <= flg p < 256 ->
+  wire_v2 c thr enc enc p = Some q -> q = v2_result (unmarked p).
+Proof.
+  intros Hc Hf H. rewrite <- wire_v2_unmarked in H.
+  exact (wire_v2_result c thr enc _ q Hc (unmarked_clean p Hf) H).
+Qed.
+
+Lemma wire_v1_complete_any c thr enc p : coders_ok c -> 0 <= flg p < 256 ->
+  codec_V1HeaderSize + Z.of_nat (length (snd (marshal_body c thr enc p))) <= codec_V1MaxPayloadBytes ->
+  wire_v1 c thr enc enc p = Some (v1_result (unmarked p)).
+Proof.
+  intros Hc Hf Hsz. rewrite <- wire_v1_unmarked. apply wire_v1_complete; [assumption|apply unmarked_clean; assumption|].
+  rewrite marshal_unmarked. exact Hsz.
+Qed.
+Lemma wire_v2_complete_any c thr enc p : coders_ok c -> 0 <= flg p < 256 ->
+  Z.of_nat (length (refers p)) <= 255 ->
+  codec_V2HeaderSize + 4 * Z.of_nat (length (refers p)) + Z.of_nat (length (snd (marshal_body c thr enc p)))
+    <= codec_V2MaxPayloadBytes ->
+  wire_v2 c thr enc enc p = Some (v2_result (unmarked p)).
+Proof.
+  intros Hc Hf Hr Hsz. rewrite <- wire_v2_unmarked. apply wire_v2_complete; [assumption|apply unmarked_clean; assumption|exact Hr|].
+  rewrite marshal_unmarked. exact Hsz.
+Qed.
+
+Lemma unmarked_set_errno e p : 0 <= flg p < 256 -> unmarked (set_errno e p) = set_errno e (unmarked p).
+Proof.
+  intros Hf. unfold unmarked, set_errno. cbn [with_flag with_body flg cmd seq typ node pbody refers endpoint].
+  unfold root_PFlagError. rewrite (unmark_lor_err _ Hf). reflexivity.
+Qed.
+
+Lemma errno_wire_any c thr enc e p q : coders_ok c -> 0 <= flg p < 256 -> in_s 32 e ->
+  (wire_v1 c thr enc enc (set_errno e p) = Some q -> errno q = e) /\
+  (wire_v2 c thr enc enc (set_errno e p) = Some q -> errno q = e).
+Proof.
+  intros Hc Hf He. split; intros H.
+  - rewrite <- wire_v1_unmarked, (unmarked_set_errno e p Hf) in H.
+    exact (errno_wire_v1 c thr enc e _ q Hc (unmarked_clean p Hf) He H).
+  - rewrite <- wire_v2_unmarked, (unmarked_set_errno e p Hf) in H.
+    exact (errno_wire_v2 c thr enc e _ q Hc (unmarked_clean p Hf) He H).
+Qed.
+
+Lemma errno_crosses_any c thr enc e p : coders_ok c -> 0 <= flg p < 256 -> in_s 32 e ->
+  10 <= thr -> (forall b, length (encrypt c b) = length b) -> Z.of_nat (length (refers p)) <= 255 ->
+  (exists q, wire_v1 c thr enc enc (set_errno e p) = Some q /\ errno q = e) /\
+  (exists q, wire_v2 c thr enc enc (set_errno e p) = Some q /\ errno q = e).
+Proof.
+  intros Hc Hf He Hthr Hlen Hrf.
+  destruct (errno_crosses c thr enc e (unmarked p) Hc (unmarked_clean p Hf) He Hthr Hlen Hrf) as [H1 H2].
+  rewrite <- (unmarked_set_errno e p Hf) in H1, H2.
+  rewrite wire_v1_unmarked in H1. rewrite wire_v2_unmarked in H2. split; assumption.
+Qed.
+
+(* what is delivered, field by field, for every 8-bit flag value *)
+Lemma header_any p : 0 <= flg p < 256 ->
+  flg (v1_result (unmarked p)) = unmark (flg p) /\ flg (v2_result (unmarked p)) = unmark (flg p) /\
+  has_flag (unmark (flg p)) root_PFlagError = has_flag (flg p) root_PFlagError /\
+  cmd (v1_result (unmarked p)) = cmd p /\ seq (v1_result (unmarked p)) = seq p /\
+  cmd (v2_result (unmarked p)) = cmd p /\ seq (v2_result (unmarked p)) = seq p /\
+  typ (v2_result (unmarked p)) = typ p /\ node (v2_result (unmarked p)) = node p /\
+  refers (v2_result (unmarked p)) = refers p.
+Proof.
+  intros Hf. destruct (header_v1 (unmarked p)) as (A1 & A2 & A3).
+  destruct (header_v2 (unmarked p)) as (B1 & B2 & B3 & B4 & B5 & B6).
+  unfold root_PFlagError. rewrite (unmark_err _ Hf). cbn in *. auto 12.
+Qed.
+
+Lemma resend_any p : 0 <= flg p < 256 -> has_flag (flg p) root_PFlagError = false ->
+  body_to_bytes (pbody (v1_result (unmarked p))) = body_to_bytes (pbody p) /\
+  body_to_bytes (pbody (v2_result (unmarked p))) = body_to_bytes (pbody p).
+Proof.
+  intros Hf He.
+  assert (He' : has_flag (flg (unmarked p)) root_PFlagError = false).
+  { cbn [unmarked with_flag flg]. unfold root_PFlagError in *. rewrite (unmark_err _ Hf). exact He. }
+  split; [rewrite (resend_v1 _ He')|rewrite (resend_v2 _ He')]; reflexivity.
+Qed.
+
+(* the errno lemma for the refers-bound check needs refers of the unmarked packet *)
+Lemma refers_unmarked p : refers (unmarked p) = refers p.
+Proof. reflexivity. Qed.
